@@ -5,7 +5,7 @@
 From Coq Require Import Sorted.
 From stdpp Require Import gmap.
 Require Import Model.Base Model.Ante Model.Validate Model.Current Model.State Model.Staking Model.Slashing Model.Poa Model.App.
-Require Import proofs.Inv proofs.InvIdx proofs.L1Effects proofs.InvPres proofs.InvMsgs proofs.InvHistory proofs.InvComet proofs.InvElig.
+Require Import proofs.EvBasic proofs.Inv proofs.InvIdx proofs.L1Effects proofs.InvPres proofs.InvMsgs proofs.InvHistory proofs.InvComet proofs.InvElig.
 Open Scope Z_scope.
 
 (* the entries the loop takes: the first n positive ones *)
@@ -191,7 +191,7 @@ Qed.
 (* one block: the state handed to the EndBlocker *)
 Definition before_endblock (w : world) (b : block) : option chain :=
   match begin_block (with_clock (w_chain w) (height (w_chain w) + 1) (now (w_chain w) + b_dt b))
-                    (match c_prev (w_comet w) with Some vs => sorted_votes vs | None => [] end) (b_absent b) with
+                    (match c_prev (w_comet w) with Some vs => sorted_votes vs | None => [] end) (b_absent b) (b_evidence b) with
   | inl c1 => Some (fst (deliver_txs c1 (b_txs b)))
   | inr _ => None
   end.
@@ -203,8 +203,8 @@ Proof.
   intros HCI Hh Hb. unfold before_endblock in Hb. unfold run_block. rewrite Hh.
   set (c0 := with_clock (w_chain w) (height (w_chain w) + 1) (now (w_chain w) + b_dt b)) in *.
   assert (H0 : CI c0) by (apply CI_clock; exact HCI).
-  destruct (begin_block c0 _ (b_absent b)) as [c1|e] eqn:Eb; [|discriminate]. inversion Hb; subst c2. clear Hb.
-  pose proof (begin_block_CI _ _ _ _ H0 Eb) as H1. pose proof (deliver_txs_CI (b_txs b) c1 H1) as H2.
+  destruct (begin_block c0 _ (b_absent b) (b_evidence b)) as [c1|e] eqn:Eb; [|discriminate]. inversion Hb; subst c2. clear Hb.
+  pose proof (begin_block_CI _ _ _ _ _ H0 Eb) as H1. pose proof (deliver_txs_CI (b_txs b) c1 H1) as H2.
   destruct (deliver_txs c1 (b_txs b)) as [c2 outs]. cbn [fst] in *.
   destruct (staking_end_block c2) as [c3 upd|e] eqn:Ee; [|cbn; discriminate].
   pose proof (staking_end_block_top _ _ _ H2 Ee) as Ht.
